@@ -3,16 +3,30 @@ package bigbuff
 import (
 	"fmt"
 	"sort"
+	"strings"
 
 	"github.com/joeycumines/go-bigbuff/internal/v/vrt"
 )
 
 // pubsubCheck: C07 (termination, no panic, final count, instance still works) and the C06
-// delivery predicates (signatures "deliver-...").
+// delivery predicates (signatures "deliver-..."). The delivery clauses (C06) are facts about the Sends that returned and are judged
+// on every execution, also one that then deadlocks or panics (C07): both are reported, one per line.
 func pubsubCheck(r *vrt.Result) string {
-	if m := baseCheck(r, true, true, true); m != "" {
-		return m
+	base := baseCheck(r, true, true, true)
+	if strings.HasPrefix(base, "step-horizon") {
+		return base
 	}
+	m := pubsubClauses(r, base != "")
+	switch {
+	case base == "":
+		return m
+	case strings.HasPrefix(m, "deliver-"):
+		return m + "\n" + base
+	}
+	return base
+}
+
+func pubsubClauses(r *vrt.Result, partial bool) string {
 	type sub struct {
 		id                  int
 		subcall, sub        int64
@@ -39,6 +53,9 @@ func pubsubCheck(r *vrt.Result) string {
 		switch e.Kind {
 		case "subcall":
 			get(e.Int(0)).subcall = e.Seq
+			if e.Str(1) == "manual" {
+				get(e.Int(0)).manual = true
+			}
 		case "sub":
 			get(e.Int(0)).sub = e.Seq
 		case "unsubcall":
@@ -70,13 +87,15 @@ func pubsubCheck(r *vrt.Result) string {
 			finals = append(finals, e.Int(0))
 		}
 	}
-	for _, f := range finals {
-		if f != 0 {
-			return fmt.Sprintf("final-count: subscriber count is %d after every subscription was withdrawn", f)
+	if !partial {
+		for _, f := range finals {
+			if f != 0 {
+				return fmt.Sprintf("final-count: subscriber count is %d after every subscription was withdrawn", f)
+			}
 		}
-	}
-	if len(finals) != 2 {
-		return "final-count: the driver did not reach its end"
+		if len(finals) != 2 {
+			return "final-count: the driver did not reach its end"
+		}
 	}
 	ids := make([]int, 0, len(sends))
 	for m := range sends {
@@ -86,6 +105,9 @@ func pubsubCheck(r *vrt.Result) string {
 	for _, m := range ids {
 		s := sends[m]
 		if s.ret == 0 {
+			if partial {
+				continue
+			}
 			return fmt.Sprintf("send-no-return: Send(%d) never returned", m)
 		}
 		got := 0
@@ -107,16 +129,21 @@ func pubsubCheck(r *vrt.Result) string {
 				continue
 			}
 			// standing subscription: established before the Send began, not withdrawn before it returned
-			if u.sub != 0 && u.sub < s.call && (u.unsubcall == 0 || u.unsubcall > s.ret) {
+			// (an iterator logs its receipt after its Wait, possibly after Send has returned: not judged
+			// for iterators on an execution that was cut short; a manual subscriber logs it at once)
+			if (!partial || u.manual) && u.sub != 0 && u.sub < s.call && (u.unsubcall == 0 || u.unsubcall > s.ret) {
 				return fmt.Sprintf("deliver-missed: subscription %d stood from before Send(%d) began until after it returned but did not receive it", u.id, m)
 			}
 		}
-		if got != s.n {
+		if got != s.n && (!partial || got > s.n) {
 			return fmt.Sprintf("deliver-count: Send(%d) returned %d but %d subscriptions received it", m, s.n, got)
 		}
 		if m == 99 && s.n != 1 {
 			return fmt.Sprintf("broken-after: a fresh subscriber did not receive the final Send (returned %d)", s.n)
 		}
+	}
+	if partial {
+		return ""
 	}
 	// one global order: some permutation of the messages, consistent with each sender's program
 	// order and with real time (a Send that returned before another began), of which every
